@@ -23,7 +23,7 @@ func ruleC07(r *Report) {
 	r.Rule("C07.order", "every slice field of a builder type is emitted by one range loop over that field that adds the element of each iteration unconditionally, in index order, with no early exit", 7)
 	r.Rule("C07.coverage", "every field of a type on the Response/Assertion path is read by its builder (a field the builder ignores is lost between IdP and SP)", 15)
 	r.Rule("C07.session", "the default assertion maker copies the session's name identifier, attribute strings, groups (in order) and custom attributes (whole, in order) verbatim into the assertion, guarded only by the emptiness of the same session field", 8)
-	r.Rule("C07.escape", "every serialisation on the IdP's response path uses the canonical write settings (CR/LF/TAB in text and attribute values survive the SP's parser)", 1)
+	r.Rule("C07.escape", "writer/reader escape agreement on the IdP's response path: every serialisation uses the canonical write settings (CR/LF/TAB in text and attribute values survive the SP's parser) and passes the module's attribute '>' escaper (encoding/xml refuses \"]]>\" even inside attribute values, canonical attribute escaping leaves '>' raw)", 1)
 
 	r.Rule("C07.prefixes", "every tree a non-builder function obtains from an Element() builder declares, at or below its root, each namespace prefix used by its element and attribute names", 3)
 	safely(r, func() { checkBuilders(r, p) })
@@ -889,6 +889,7 @@ func checkRegistration(r *Report, p *Prog) {
 		}
 		r.Fn(p.FnName(vf))
 		av := NewAnalysis(p)
+		av.Inline = validatorInline(p, NewScope(p, r.Tier))
 		fv := av.Ctx(vf)
 		fv.ensureConds()
 		fv.RejectFormula()
